@@ -9,7 +9,9 @@ def generate(rng, tier):
         # exercise User-Name restoration and multi-client multiplexing
         for c in cfg.clients:
             if rng.random() < 0.5:
-                c.rwuser = rng.choice([(r'^(.*)$', r'\1.inner'), (r'^([^@]*)@(.*)$', r'\1+x@\2'), (r'^(.*)@(.*)$', r'\1@\2')])
+                c.rwuser = rng.choice([(r'^(.*)$', r'\1.inner'), (r'^([^@]*)@(.*)$', r'\1+x@\2'), (r'^(.*)@(.*)$', r'\1@\2'),
+                                       # a rewrite that changes letter case only (the expressions are compiled case-insensitively)
+                                       (r'^(.*)@example\.com$', r'\1@example.com'), (r'^(.*)@other\.org$', r'\1@other.org'), (r'^(.*)@b\.example\.com$', r'\1@b.example.com')])
             c.dupint = rng.choice([None, 1, 2, 10])
         for r in cfg.realms:
             if not r.srv:
